@@ -197,24 +197,52 @@ theorem mem_setKey {k k' : String} {a a' : Arg} {args : List (String × Arg)} (h
       exact ⟨_, h, by simp⟩
     · simp at h; exact .inl ⟨h.1, h.2⟩
 
+/-- in a dict every entry is the one `d[k]` finds -/
+theorem getKey_of_mem {k : String} {a : Arg} : ∀ {args : List (String × Arg)}, KeysUnique args → (k, a) ∈ args →
+    getKey k args = some a
+  | [], _, hm => by cases hm
+  | (k', a') :: r, hu, hm => by
+    simp only [KeysUnique, List.map_cons, List.nodup_cons] at hu
+    simp only [getKey]
+    rcases List.mem_cons.mp hm with e | e
+    · cases e; simp
+    · have hne : ¬ k' = k := by
+        intro e'; subst e'
+        exact hu.1 (List.mem_map.mpr ⟨(k', a), e, rfl⟩)
+      simp only [hne, if_false]
+      exact getKey_of_mem hu.2 e
+
+theorem hasKey_iff {k : String} {args : List (String × Arg)} : hasKey k args = true ↔ k ∈ args.map Prod.fst := by
+  simp only [hasKey, List.any_eq_true, List.mem_map, beq_iff_eq]
+
 theorem keysUnique_setKey {k : String} {a : Arg} {args : List (String × Arg)} (hu : KeysUnique args) :
     KeysUnique (setKey k a args) := by
-  intro k' a' hm
-  rw [getKey_setKey]
-  rcases mem_setKey hm with ⟨h1, h2⟩ | ⟨h1, h2⟩
-  · subst h1; subst h2; simp
-  · have : ¬ k = k' := fun e => h1 e.symm
-    simp [this, hu k' a' h2]
+  unfold setKey
+  split
+  · have : (args.map (fun e => if e.1 = k then (k, a) else e)).map Prod.fst = args.map Prod.fst := by
+      rw [List.map_map]
+      apply List.map_congr_left
+      intro e _
+      simp only [Function.comp]
+      split
+      · next h => exact h.symm
+      · rfl
+    unfold KeysUnique; rw [this]; exact hu
+  · next hk =>
+    unfold KeysUnique
+    rw [List.map_append, List.nodup_append]
+    refine ⟨hu, by simp, ?_⟩
+    intro x hx y hy
+    simp only [List.map_cons, List.map_nil, List.mem_singleton] at hy
+    subst hy
+    intro e; subst e
+    exact hk (hasKey_iff.mpr hx)
 
 theorem keysUnique_delKey {k : String} {args : List (String × Arg)} (hu : KeysUnique args) :
-    KeysUnique (delKey k args) := by
-  intro k' a' hm
-  rw [getKey_delKey]
-  simp only [delKey, List.mem_filter, bne_iff_ne, ne_eq] at hm
-  have : ¬ k = k' := fun e => hm.2 e.symm
-  simp [this, hu k' a' hm.1]
+    KeysUnique (delKey k args) :=
+  List.Nodup.sublist (List.Sublist.map Prod.fst List.filter_sublist) hu
 
-theorem keysUnique_nil : KeysUnique [] := by intro k a h; cases h
+theorem keysUnique_nil : KeysUnique [] := by simp [KeysUnique]
 
 /-! ### hashing depends only on the children's hashes -/
 
@@ -225,7 +253,7 @@ def IsChild (args : List (String × Arg)) (c : Id) : Prop :=
 theorem isChild_stored {h : Heap H} {p : Id} {c : Id} (hu : KeysUnique (h p).args) (hc : IsChild (h p).args c) :
     ∃ k i, Stored h p k i c := by
   obtain ⟨k, a, hm, i, ha⟩ := hc
-  exact ⟨k, i, a, hu k a hm, ha⟩
+  exact ⟨k, i, a, getKey_of_mem hu hm, ha⟩
 
 theorem mem_insertArg {x e : String × Arg} : ∀ {l : List (String × Arg)}, x ∈ insertArg e l ↔ x = e ∨ x ∈ l
   | [] => by simp [insertArg]
